@@ -469,6 +469,7 @@ func c16Usability(rp *runner.Report) (runs int64) {
 
 func c16Part(rp *runner.Report) {
 	ev := c16Bijection(rp)
+	ev += c16EntryPoints(rp)
 	runs := c16Usability(rp)
 	rp.Trans += ev + int(runs)
 	rp.States += int(runs)
